@@ -35,7 +35,9 @@ EXPLANATION = (
     ' '
     'R-C03.7 also fires when BaseMutation.__hash__ is not identity-based while __eq__ is structural (every membership test is then an equality test).'
     ' '
-    'R-C03.17 = R-C01.18.')
+    'R-C03.17 = R-C01.18.'
+    ' '
+    'R-C03.18 = R-C01.16.')
 NOT_DECIDED = (
     'Equivalence of the optimised run and the one-at-a-time run (signature, '
     'schema, rows) for all sequences: needs execution of both.')
@@ -1144,14 +1146,24 @@ def r16_every_mutator_replays_its_simulation(ctx, rule_id='R-C03.16'):
                               kc.find_method('finalize')) if m is not None]
         own = reaches_simulation(starts)
         in_loop = False
-        for n in walk_no_nested(to_sql.node):
-            if isinstance(n, ast.If) and any(
-                    isinstance(c, ast.Call) and call_name(c) == 'isinstance'
-                    and k in unparse(c) for c in ast.walk(n.test)) and any(
-                    isinstance(c, ast.Call) and
-                    call_name(c) in ('run_simulation', '_run_simulation')
-                    for st in n.body for c in ast.walk(st)):
-                in_loop = True
+        # a re-simulation in to_sql's loop that is reached for instances of
+        # K: under `if isinstance(m, K):`, or after `if not isinstance(m,
+        # K): continue` (decided on the CFG: the call is controlled by the
+        # isinstance test)
+        tg = ctx.cfg(to_sql)
+        sims = [x for x in tg.nodes if any(
+            call_name(c) in ('run_simulation', '_run_simulation')
+            for c in x.calls())]
+        for x in sims:
+            for t in tg.nodes:
+                if t.kind in ('test', 'operand') and t.ast is not None and \
+                        any(isinstance(c, ast.Call) and
+                            call_name(c) == 'isinstance' and k in unparse(c)
+                            for c in ast.walk(t.ast)):
+                    neg = isinstance(t.ast, ast.UnaryOp) and \
+                        isinstance(t.ast.op, ast.Not)
+                    if tg.guarded_by(x, t, 'F' if neg else 'T'):
+                        in_loop = True
         if own or in_loop:
             ctx.ok(to_sql, '%s: the mutation is simulated again in the SQL '
                    'generation pass (%s)' % (
@@ -1170,7 +1182,13 @@ def r17_index_names_from_columns(ctx):
     r18_index_names_from_columns(ctx, rule_id='R-C03.17')
 
 
+def r18_every_model_mutation_queues_an_op(ctx):
+    from .c01 import r16_every_model_mutation_queues_an_op
+    r16_every_model_mutation_queues_an_op(ctx, rule_id='R-C03.18')
+
+
 def run(ctx):
+    r18_every_model_mutation_queues_an_op(ctx)
     r17_index_names_from_columns(ctx)
     r16_every_mutator_replays_its_simulation(ctx)
     r15_no_write_after_conditional_handover(ctx)
